@@ -31,7 +31,7 @@ Definition offset_slice_indices_lsb0 (key : pyslice) (len : Z) : res pyslice :=
     Ok (mkslice (Some new_start) (if new_stop <? 0 then None else Some new_stop) (s_step key))
   else
     match stop with
-    | None => Err AssertionError   (* unreachable: stop is None only for negative steps *)
+    | None => Err TypeError        (* `None <= start` is Python's TypeError; unreachable: stop is None only for negative steps *)
     | Some stop =>
         if stop <=? start then Ok (mkslice (Some (len - start)) (Some (len - start)) (s_step key)) else
         let first_element := start in
